@@ -309,6 +309,18 @@ var moments = ev.Register(&ev.P[momentCase]{
 				return fmt.Errorf("%v mansion %s is followed next day by %s (the order is …%s,%s…)", c.T, x.l.GetXiu(), nl.GetXiu(), xiu28[xi], xiu28[(xi+1)%28])
 			}
 		}
+		// the hour list's rat-hour entries have the spirit of their own (exact day branch, hour branch): entry 0 (00:00)
+		// that of today's early rat hour, entry 12 (23:00) that of tonight's late rat hour (tomorrow's day branch)
+		if (c.T.D+c.T.H)%4 == 0 {
+			if ts := x.l.GetTimes(); len(ts) == 13 {
+				for _, e := range []struct{ i, h int }{{0, 0}, {12, 23}} {
+					want := calendar.NewSolar(c.T.Y, c.T.M, c.T.D, e.h, 30, 0).GetLunar().GetTimeTianShen()
+					if got := ts[e.i].GetTianShen(); got != want {
+						return fmt.Errorf("%v: GetTimes()[%d].GetTianShen() = %q, but a moment at %02d:30 of the same day (same exact day branch, same hour branch) has hour spirit %q", c.T, e.i, got, e.h, want)
+					}
+				}
+			}
+		}
 		// functional dependencies
 		for i := range fdAttrs {
 			f := &fdAttrs[i]
